@@ -355,3 +355,210 @@ func (c *Ctx) defaultRingHoldsLargestWill() {
 		fmt.Sprintf("default ring size %d >= %d", best, largestWill),
 		fmt.Sprintf("the ring newBuffer installs by default has %d bytes, the largest will PUBLISH has %d: on a broker with default settings the will of a client that dropped cannot be delivered to its subscribers", best, largestWill))
 }
+
+const ruleB14 = "B14-encoder-writes-what-it-counts"
+
+// encodersWriteEveryByte: an encoder that moves its cursor forward by a constant number of bytes has written those
+// bytes on every path to the advance - it does not rely on the destination being zeroed. The broker encodes into ring
+// memory that held earlier packets, and the API lets a caller reuse a buffer: a byte that is counted but not written
+// goes out with whatever the buffer held.
+func (c *Ctx) encodersWriteEveryByte() {
+	c.R.Rule(ruleB14, "in every encoder of package message (Encode, encode, encodeMessage and their private helpers with a destination parameter), each constant advance of the cursor `c + k` over the destination is reached only over paths that wrote at c: an element store dst[c], a binary.PutUintN(dst[c:]), or a copy(dst[c:], ..) - block reachability from the definition of c with the writing blocks removed.")
+	sp := c.P.SPkgs["message"]
+	if sp == nil {
+		c.R.Unresolved("package message")
+		return
+	}
+	n := 0
+	for _, fn := range c.P.Funcs {
+		if fn.Pkg != sp || fn.Parent() != nil || fn.Blocks == nil {
+			continue
+		}
+		switch fn.Name() {
+		case "Encode", "encode", "encodeMessage":
+		default:
+			continue
+		}
+		var dst ssa.Value
+		for _, p := range fn.Params {
+			if sl, ok := p.Type().Underlying().(*types.Slice); ok {
+				if bt, ok := sl.Elem().Underlying().(*types.Basic); ok && bt.Kind() == types.Byte {
+					dst = p
+				}
+			}
+		}
+		if dst == nil {
+			continue
+		}
+		isDst := func(v ssa.Value) bool { return ir.SeeThrough(v) == dst }
+		// writes at a cursor value: cursor -> blocks
+		writes := map[ssa.Value]map[*ssa.BasicBlock]bool{}
+		used := map[ssa.Value]bool{} // values used as a position in dst
+		note := func(cur ssa.Value, b *ssa.BasicBlock) {
+			cur = ir.SeeThrough(cur)
+			if writes[cur] == nil {
+				writes[cur] = map[*ssa.BasicBlock]bool{}
+			}
+			writes[cur][b] = true
+		}
+		for _, b := range fn.Blocks {
+			for _, in := range b.Instrs {
+				switch x := in.(type) {
+				case *ssa.IndexAddr:
+					if isDst(x.X) {
+						used[ir.SeeThrough(x.Index)] = true
+						if x.Referrers() != nil {
+							for _, ref := range *x.Referrers() {
+								if st, ok := ref.(*ssa.Store); ok && st.Addr == ssa.Value(x) {
+									note(x.Index, st.Block())
+								}
+							}
+						}
+					}
+				case *ssa.Slice:
+					if isDst(x.X) && x.Low != nil {
+						used[ir.SeeThrough(x.Low)] = true
+						if x.Referrers() != nil {
+							for _, ref := range *x.Referrers() {
+								call, ok := ref.(*ssa.Call)
+								if !ok {
+									continue
+								}
+								cc := call.Common()
+								if bi, isB := cc.Value.(*ssa.Builtin); isB && bi.Name() == "copy" && len(cc.Args) == 2 && cc.Args[0] == ssa.Value(x) {
+									note(x.Low, call.Block())
+									continue
+								}
+								if callee := cc.StaticCallee(); callee != nil && callee.Pkg != nil && callee.Pkg.Pkg.Path() == "encoding/binary" && strings.HasPrefix(callee.Name(), "Put") {
+									note(x.Low, call.Block())
+									continue
+								}
+								// a library helper that is handed dst[c:] writes there (writeLPBytes, header.encode): its own
+								// count, not a constant, is what advances the cursor then
+								if callee := cc.StaticCallee(); callee != nil && callee.Pkg == sp {
+									note(x.Low, call.Block())
+								}
+							}
+						}
+					}
+				}
+			}
+		}
+		k := 0
+		for _, b := range fn.Blocks {
+			for _, in := range b.Instrs {
+				bo, ok := in.(*ssa.BinOp)
+				if !ok || bo.Op != token.ADD {
+					continue
+				}
+				cur, kc := ir.SeeThrough(bo.X), bo.Y
+				if _, isK := cur.(*ssa.Const); isK {
+					cur, kc = ir.SeeThrough(bo.Y), bo.X
+				}
+				kv, isK := kc.(*ssa.Const)
+				if !isK || kv.Value == nil || kv.Value.Kind() != constant.Int {
+					continue
+				}
+				adv, exact := constant.Int64Val(kv.Value)
+				if !exact || adv < 1 || adv > 8 {
+					continue
+				}
+				if bt, ok := bo.Type().Underlying().(*types.Basic); !ok || bt.Kind() != types.Int {
+					continue
+				}
+				// the sum is the cursor behind the bytes only if it is used as a position (or returned, or flows into a
+				// phi that is); `dst[c+1] = x` uses c+1 as an index of a byte of the same field: not an advance
+				if !used[cur] && !c.flowsToPosition(bo, used) {
+					continue
+				}
+				if !c.flowsToPosition(bo, used) && !returned(bo) {
+					continue
+				}
+				if _, isC := cur.(*ssa.Const); isC {
+					continue
+				}
+				k++
+				n++
+				w := writes[cur]
+				ok = false
+				if w[b] {
+					ok = true
+				} else {
+					var from *ssa.BasicBlock
+					if ci, isI := cur.(ssa.Instruction); isI {
+						from = ci.Block()
+					} else {
+						from = fn.Blocks[0]
+					}
+					if len(w) > 0 {
+						if from == b {
+							ok = false
+						} else {
+							reach := ir.ReachableBlocks(from, w)
+							ok = !reach[b] || w[from]
+						}
+					}
+				}
+				c.R.Check(ok, ruleB14, fmt.Sprintf("%s:advance#%d(+%d):bytes-written-on-every-path", fname(fn), k, adv), c.P.InstrPos(bo),
+					"every path to the advance wrote at the cursor",
+					fmt.Sprintf("%s moves its cursor forward by %d without having written the destination at that position on every path: the byte keeps what the buffer held before (ring memory of an earlier packet, a reused buffer) and goes out as part of the packet", fname(fn), adv))
+			}
+		}
+	}
+	c.R.Count("constant cursor advances in encoders", n)
+	c.R.Floor("constant cursor advances in encoders", n, 8)
+}
+
+// flowsToPosition: v (a cursor sum) is used as a position in the destination, directly or through phis / further sums.
+func (c *Ctx) flowsToPosition(v ssa.Value, used map[ssa.Value]bool) bool {
+	seen := map[ssa.Value]bool{}
+	var walk func(v ssa.Value, d int) bool
+	walk = func(v ssa.Value, d int) bool {
+		if seen[v] || d > 6 {
+			return false
+		}
+		seen[v] = true
+		if used[v] {
+			return true
+		}
+		refs := v.Referrers()
+		if refs == nil {
+			return false
+		}
+		for _, ref := range *refs {
+			switch x := ref.(type) {
+			case *ssa.Phi:
+				if walk(x, d+1) {
+					return true
+				}
+			case *ssa.BinOp:
+				if x.Op == token.ADD && walk(x, d+1) {
+					return true
+				}
+			case *ssa.Return:
+				return true
+			}
+		}
+		return false
+	}
+	return walk(v, 0)
+}
+
+func returned(v ssa.Value) bool {
+	if v.Referrers() == nil {
+		return false
+	}
+	for _, ref := range *v.Referrers() {
+		if _, ok := ref.(*ssa.Return); ok {
+			return true
+		}
+	}
+	return false
+}
+
+// codecLengthTables: the part of the codec rules every property about sent packets depends on - Len() agrees with the
+// remaining-length varint actually written (T1 thresholds and type tables) and the encoders write what they count (B14).
+func (c *Ctx) codecLengthTables() {
+	c.typeTables()
+	c.encodersWriteEveryByte()
+}
